@@ -18,8 +18,10 @@ From PV Require Import Base.Prelude Base.Text Model.Alias.
 Open Scope N_scope.
 Open Scope list_scope.
 
-(* transcription of icmp6spoof.go StartHunt as found in /repo *)
-Definition hunt6_copies : bool := false.
+(* transcription of icmp6spoof.go StartHunt: as found in /repo it stored the Addr as passed (false);
+   repaired by /repo commit 94488cb: addr.MAC = packet.CopyMAC(addr.MAC) before the list is touched
+   (c1ee67c: the same in arp_spoofer) *)
+Definition hunt6_copies : bool := true.
 
 Definition hstate := list rv.
 
@@ -70,6 +72,6 @@ Fixpoint hfresh (next : nat) (p : list hop) : list heop :=
   | HStop m :: r => HEStop m :: hfresh next r
   end.
 
-(* the recorded defect class: the history contains a StartHunt on a frame view *)
+(* the defect class of the unrepaired code: the history contains a StartHunt on a frame view *)
 Definition known_C10_hunt6 (p : list hop) : bool :=
   existsb (fun o => match o with HStart _ => true | HStop _ => false end) p.
